@@ -70,6 +70,10 @@ def check(acc, desc, values=True, repeat=False):
     try:
         if case.get("repeat"):
             cg.tx.acyclic_unroll(c)  # an earlier call on the same object must not matter
+            if isinstance(case["repeat"], list):
+                u, v, w = case["repeat"]
+                c.disconnect(u, v)      # move one edge: same number of nodes and edges, another cycle structure
+                c.connect(w, v)
             if case["repeat"] == "edit":
                 flip = {"and": "or", "or": "and", "xor": "xnor", "xnor": "xor", "nand": "nor", "nor": "nand", "buf": "not", "not": "buf"}
                 for g in sorted(c.graph.nodes):
@@ -194,6 +198,16 @@ def run(job):
             acc.states += 2
             check(acc, desc, repeat=True)
             check(acc, desc, repeat="edit")
+            c0 = space.build(desc)
+            moves = []
+            for (u, v) in sorted(c0.graph.edges):
+                if c0.graph.nodes[v]["type"] in space.MULTI:
+                    for w in sorted(c0.graph.nodes):
+                        if w not in (u, v) and w not in c0.graph.pred[v]:
+                            moves.append([u, v, w])
+            for mv in moves[:6]:
+                acc.states += 1
+                check(acc, desc, repeat=mv)
         acc.sample({"desc": desc})
         if acc.out_of_time():
             break
